@@ -80,4 +80,49 @@ def flattenF (E : Env) : Nat → KVs → String → Out Val
             | .panic s => .panic s)
     | _ => .err "flatten:not-a-service"
 
+/-- outcome of following the `extends` links only (no merge, no tracker): the chain ends at a service without `extends`,
+gets stuck (missing base / file, malformed reference, not a mapping), or is still going after `fuel` links -/
+inductive WalkRes where
+  | leaf | stuck | long
+deriving DecidableEq, Repr
+
+def walkChain (E : Env) : Nat → KVs → String → WalkRes
+  | 0, _, _ => .long
+  | fuel + 1, S, n =>
+    match lookup n S with
+    | some (.map svc) =>
+      (match lookup "extends" svc with
+      | none => .leaf
+      | some e =>
+        match parseExtends e with
+        | .ok (ref, file) =>
+          (match baseMap E S ref file with
+          | some S' => walkChain E fuel S' ref
+          | none => .stuck)
+        | _ => .stuck)
+    | _ => .stuck
+
+/-- the error class the chain of service `n` gets stuck with, if it does: follow the links only; the first link that
+cannot be followed names the class (`notFound`, `noFile`, the load error of the file, `noServices`, `notFoundInFile`,
+`resolveErr`, `fileServicesNotMapping`, a malformed reference, `serviceNotMapping`) -/
+def stuckClass (E : Env) : Nat → KVs → String → Option String
+  | 0, _, _ => none
+  | fuel + 1, S, n =>
+    match lookup n S with
+    | some (.map svc) =>
+      (match lookup "extends" svc with
+      | none => none
+      | some e =>
+        match parseExtends e with
+        | .err c => some c
+        | .panic _ => none
+        | .ok (ref, file) =>
+          match resolveBase E "" n ref file S with
+          | .err c => some c
+          | .panic _ => none
+          | .ok (S', _, _) => stuckClass E fuel S' ref)
+    | some .null => none
+    | none => none
+    | some _ => some "serviceNotMapping"
+
 end CV.Extends
